@@ -86,6 +86,9 @@ def check(an: Analysis) -> None:
     calls = [c for c in f.own_nodes() if isinstance(c, ast.Call) and dotted(c.func) == "self._function"]
     if len(calls) != 1:
         ob.fail(f, None, f"the wrapped function is called {len(calls)} times")
+    from ..kinds import holds_the_decorated_function
+
+    holds_the_decorated_function(an, ob, "helpers.throttling._AsyncThrottle")
     for c in calls:
         ob.inst(f, c)
         if _in_lock(c, locks):
@@ -296,6 +299,8 @@ def check(an: Analysis) -> None:
             def base(e: ast.AST, got=got, per_p=per_p):
                 if is_name(e, per_p):
                     return got
+                if isinstance(e, ast.Call) and an.callee(init, e) == "datetime.timedelta":
+                    return _AbsTD("timedelta", "object", tag="a timedelta built from the number")  # (rounded to microseconds)
                 return NOVALUE
 
             sc = Scenario(gi, dinit, base)
@@ -310,6 +315,12 @@ def check(an: Analysis) -> None:
                 cands_ = list(sc.reaching_values(live[0], stored_.id)) or [stored_]  # e.g. the result of an inlined conversion helper
             finals_ = [_period_value(an, init, c_, per_p, got) for c_ in cands_]
             final = finals_[0] if all(f_ is finals_[0] for f_ in finals_) else _UNKNOWN
+            if final is _UNKNOWN and isinstance(stored_, ast.Call) and isinstance(stored_.func, ast.Attribute) and stored_.func.attr == "total_seconds" and not stored_.args and isinstance(stored_.func.value, ast.Name):
+                # `<local>.total_seconds()`: what the local holds in this situation (a match capture of the period, a timedelta
+                # built from the number ...)
+                iv_ = sc.value_at(live[0], stored_.func.value)
+                if isinstance(iv_, _AbsTD) and iv_.mro[0] == "timedelta":
+                    final = _SECONDS
             if final is _UNKNOWN:
                 raise AnalysisError(f"C15.5: cannot evaluate what self._period holds for {label}")
             want = _SECONDS if value is a_delta else value
@@ -318,7 +329,15 @@ def check(an: Analysis) -> None:
                     ob.fail(init if got is a_delta else wrap, live[0].ast if got is a_delta else c, "a timedelta period is not converted with total_seconds() (e.g. .seconds drops days and microseconds)")
                 else:
                     ob.fail(init, live[0].ast, "a numeric period is not used as is")
+    from ..engine import borrow
+    from . import c18
 
+    # C18.7: mimic_function never overwrites what the wrapper object already holds (its own _function, its store / lock / window /
+    # timeout): stacked wrappers would otherwise adopt each other's state and the inner function would be called directly
+    borrow(an, c18.check, {"C18.7": "C15.6"})
+
+
+from ..kinds import Abs as _AbsTD  # noqa: E402
 
 _UNKNOWN = object()
 _SECONDS = object()  # <timedelta>.total_seconds()
